@@ -338,7 +338,8 @@ class MetaGetNextObject(Contract):
 
     @property
     def loops(self):
-        return {0: Loop(inv=lambda S, env, g: self.inv(S, env, g))}
+        # the variant makes the cursor advance part of the proof (a step that does not move to the next dimension would loop forever)
+        return {0: Loop(inv=lambda S, env, g: self.inv(S, env, g), variant=lambda S, env, g: self.ndim - env["self"].fields["curContainer"])}
 
     def post(self, S, old, env, result):
         so, f = old["self"].fields, env["self"].fields
